@@ -18,8 +18,9 @@ import (
 func init() { commands["C16"] = runC16 }
 
 type child struct {
-	name  string
-	isDir bool
+	name    string
+	isDir   bool
+	special uint32 // setuid/setgid/sticky (io/fs encoding) given to the child by Chmod after it was created
 }
 
 func genChildren(r *Rng, k int) []child {
@@ -34,7 +35,11 @@ func genChildren(r *Rng, k int) []child {
 			continue
 		}
 		seen[n] = true
-		out = append(out, child{n, r.Intn(3) == 0})
+		sp := uint32(0)
+		if r.Intn(6) == 0 {
+			sp = []uint32{1 << 20, 1 << 22, 1 << 23}[r.Intn(3)]
+		}
+		out = append(out, child{n, r.Intn(3) == 0, sp})
 	}
 	return out
 }
@@ -55,6 +60,14 @@ func populate(fs hackpadfs.FS, dir string, cs []child) {
 		}
 		if err != nil {
 			panic(err)
+		}
+		if c.special != 0 {
+			perm := uint32(0o640)
+			if c.isDir {
+				perm = 0o750
+			}
+			// the kind of a listed entry must still be the kind Stat reports (best effort: layers that cannot chmod keep the plain mode)
+			_ = hackpadfs.Chmod(fs, p, hackpadfs.FileMode(perm|c.special))
 		}
 	}
 }
